@@ -103,13 +103,23 @@ Offer(e) ==
                 allowed |-> OfferAllowed(trusted.content, e), after |-> trusted'.content])
   /\ UNCHANGED <<disk, head, published, adv, nrot>>
 
+(* The adversary also controls the CONTAINER: any content with any signatures may arrive in something that is not a signed       *)
+(* envelope (an extra top-level member, a signature section that is not a map, ...).  Such an offer is malformed: the client    *)
+(* keeps its root, whatever the content and whoever signed it.                                                                  *)
+OfferMalformed(e) ==
+  /\ hadThreshold' = (hadThreshold \/ AdvHas(trusted.content))
+  /\ trusted' = IF MUTANT = "malformed_installs" THEN [content |-> e.content, via |-> Link(trusted.content, e.signers)] ELSE trusted
+  /\ hist' = H([a |-> "offer_malformed", content |-> e.content, signers |-> e.signers,
+                allowed |-> {"TypeError", "ValueError"}, after |-> trusted'.content])
+  /\ UNCHANGED <<disk, head, published, adv, nrot>>
+
 Persist == /\ disk # trusted /\ disk' = trusted /\ hist' = H([a |-> "persist"])
            /\ UNCHANGED <<trusted, head, published, adv, nrot, hadThreshold>>
 Restart == /\ disk # NoDisk /\ trusted' = disk /\ hist' = H([a |-> "restart", after |-> disk.content])
            /\ hadThreshold' = (hadThreshold \/ AdvHas(trusted.content))
            /\ UNCHANGED <<disk, head, published, adv, nrot>>
 
-Next == HonestRotate \/ CarelessRotate \/ (\E k \in Key : Compromise(k)) \/ (\E e \in AdvEnvelopes : Offer(e)) \/ Persist \/ Restart
+Next == HonestRotate \/ CarelessRotate \/ (\E k \in Key : Compromise(k)) \/ (\E e \in AdvEnvelopes : Offer(e) \/ OfferMalformed(e)) \/ Persist \/ Restart
 Spec == Init /\ [][Next]_vars
 
 (* Behaviour generation (tlc -simulate): every disjunct offers at most one successor, so that the *)
@@ -126,6 +136,8 @@ SimNext ==
   \/ \E c \in Pick({d \in Contents("a") : d.ver = trusted.content.ver + 1}) : \E sg \in Pick(SUBSET adv) : Offer([content |-> c, signers |-> sg])
   \/ \E c \in Pick({d \in Contents("a") : d.ver = trusted.content.ver + 1}) : Offer([content |-> c, signers |-> adv])           \* forged successor
   \/ \E c \in Pick(Contents("a")) : Offer([content |-> c, signers |-> adv])                                                   \* skip / rollback
+  \/ \E c \in Pick({d \in Contents("a") : d.ver = trusted.content.ver + 1}) : OfferMalformed([content |-> c, signers |-> adv])  \* forged successor in a malformed container
+  \/ \E p \in Pick({q \in published : q.content.ver = trusted.content.ver + 1}) : OfferMalformed(p)                           \* even the honest next root
   \/ Persist \/ Restart
 EmitBehaviour == Len(hist) < SimDepth \/ PrintT("@@" \o ToJson(hist))
 AssembleConsistent == \A e \in AdvEnvelopes : CanAssemble(e)
